@@ -453,5 +453,12 @@ _ROUND9 = {
     "C19": " Inside real records: what a marshaller leaves unread must still be the front of the encoder when the next marshaller of the record (or a final sentinel marshaller) is entered, with strings of 5-4500 bytes printed in between and records printed by contexts made afresh (1024-byte buffers that grow on the way).",
     "C20": " MustParseDuration, the parser's twin without an error result, must agree with ParseDuration on every accepted text (round trips and differential).",
 }
+_ROUND10 = {
+    "C04": " Time values include the zero time.Time, the Unix epoch and their neighbours (1 case of 16).",
+    "C10": " Attribute, key/value and context-key lists may be empty (With(), WithAttrs(), WithContextKeys(): still a new child).",
+    "C17": " Custom short tags may have any length (a given tag is used as given).",
+}
+for _pid, _txt in _ROUND10.items():
+    _ROUND9[_pid] = _ROUND9.get(_pid, "") + _txt
 for _pid, _txt in _ROUND9.items():
     PROPS[_pid]["rule"] = PROPS[_pid]["rule"] + _txt
